@@ -4,7 +4,7 @@
    calendar type through the public constructors and conversion operators.
    Property theorems only (proofs in ProofsCal*.v).  Stored values: year int16, month / day /
    weekday / index uint8; deltas are int32 counts.  [Ok v] = normal return without signed overflow. *)
-From Tetl Require Import Lib.Base C11.Model C11.Spec C11.ModelCal C11.SpecCal C11.ProofsCal C11.ProofsCal2 C11.ProofsCal3 C11.ProofsCal4 C11.ProofsCal5 C11.ProofsCal6 C11.ProofsCalB.
+From Tetl Require Import Lib.Base C11.Model C11.Spec C11.ModelCal C11.SpecCal C11.Proofs C11.ProofsCal C11.ProofsCal2 C11.ProofsCal3 C11.ProofsCal4 C11.ProofsCal5 C11.ProofsCal6 C11.ProofsCalB.
 Local Open Scope Z_scope.
 
 (** * sys_days <-> year_month_day through the public API *)
@@ -69,6 +69,18 @@ Proof.
   intros y m d Hy Hm Hd. eexists. unfold ymd_to_days_m. rewrite (days_total y m d Hy Hm Hd). split; reflexivity.
 Qed.
 Print Assumptions C11_kernels_total.
+
+(* on that whole int32 domain civil_from_days is the Gregorian calendar with the year reduced to int16:
+   civil_pure is the calendar extended in both directions (day 0 = 1970-01-01, the day after = next_day
+   for EVERY z) and equals the walker on the supported range *)
+Theorem C11_civil_any_day :
+  (forall z, -2147483648 <= z <= 2146764179 ->
+    civil_from_days_m z = Some (let '(y, m, d) := civil_pure z in (wraps 16 y, m, d)))
+  /\
+  (civil_pure 0 = epoch /\ (forall z, civil_pure (z + 1) = next_day (civil_pure z))
+   /\ (forall z, day_lo <= z <= day_hi -> civil_pure z = greg z)).
+Proof. exact (conj civil_any_pure civil_pure_calendar). Qed.
+Print Assumptions C11_civil_any_day.
 
 (** * year_month_day +/- months, +/- years: no clamping, ok() afterwards = the date exists *)
 Theorem C11_ymd_plus_months : forall y m d dm,
